@@ -218,3 +218,54 @@ def target (w : World) (resolverAddr : String) (k : Nat) (r0 : Request) : Option
 
 end Proxy
 end VV
+
+/-! ### byte level: the client side of `proxy::handle` over a buffered reader -/
+
+namespace VV
+namespace Proxy
+
+structure BOut where
+  groups : List (List Reply)
+  sent : List (String × Request)
+  status : End
+  buffered : Bytes      -- `client_bufreader.buffer()` when the loop was left
+  rest : List Bytes     -- what the client's descriptor has not delivered yet
+deriving Repr, DecidableEq
+
+/-- proxy.rs 36-50 around `step`: `read_until(0)` on a `BufReader` over the client's
+    descriptor (`reads` = the results of the successive `read` calls), `buf.pop()`,
+    `from_slice`.  At EOF a last message without its NUL loses its last byte to the
+    unconditional `pop()` before it is parsed. -/
+def bridgeLoop (w : World) (dec : Bytes → Frame) : Nat → St → Rd → BOut
+  | 0, _, rd => { groups := [], sent := [], status := .error, buffered := [], rest := rd.reads }  -- unreachable, see `bridge`
+  | fuel + 1, st, rd =>
+    match readUntil rd.buf rd.reads [] with
+    | (msg, false, rd') =>
+      if msg = [] then { groups := [], sent := [], status := .eof, buffered := [], rest := rd'.reads }
+      else match dec msg.dropLast with
+        | .bad => { groups := [], sent := [], status := .error, buffered := [], rest := rd'.reads }
+        | .req r =>
+          match step w st r with
+          | .stop out status sent => { groups := [out], sent := sent, status := status, buffered := [], rest := rd'.reads }
+          | .next out _ sent => { groups := [out], sent := sent, status := .eof, buffered := [], rest := rd'.reads }
+    | (msg, true, rd') =>
+      match dec msg with
+      | .bad => { groups := [], sent := [], status := .error, buffered := rd'.buf, rest := rd'.reads }
+      | .req r =>
+        match step w st r with
+        | .stop out status sent =>
+          { groups := [out], sent := sent, status := status, buffered := rd'.buf, rest := rd'.reads }
+        | .next out st' sent =>
+          let o := bridgeLoop w dec fuel st' rd'
+          { o with groups := out :: o.groups, sent := sent ++ o.sent }
+
+def bridge (w : World) (dec : Bytes → Frame) (reads : List Bytes) : BOut :=
+  bridgeLoop w dec (totalLen reads + 1) {} { buf := [], reads := reads }
+
+/-- the decoded frames the bridge sees in a byte stream: the NUL-terminated
+    messages, and a trailing unterminated one minus its last byte -/
+def clientFrames (dec : Bytes → Frame) (total : Bytes) : List Frame :=
+  (frames total).1.map dec ++ (if (frames total).2 = [] then [] else [dec (frames total).2.dropLast])
+
+end Proxy
+end VV
